@@ -101,6 +101,8 @@ class Parser:
             line = line.split("#")[0]
 
         include_pairs = line.split()
+        if len(include_pairs) < 2:
+            raise ParseError(f"No file found for the INCLUDE directive: '{line.strip()}'")
         if len(include_pairs) > 2:
             log.warning(
                 "Multiple include files have been found on the same line. "
